@@ -178,6 +178,12 @@ func (y *Sys) c11Probe(ref *c11Ref) string {
 }
 
 func runC11(t *testing.T, c explore.Case) (res explore.Result) {
+	if strings.HasPrefix(c.Unit, "lin;") {
+		if linReplays["C11"] == nil {
+			return explore.Result{Viol: "HARNESS: serializability tier not built"}
+		}
+		return linReplays["C11"](t, c)
+	}
 	if c.Unit == "schedule" {
 		return runC11Schedule(t, c)
 	}
@@ -361,6 +367,10 @@ func TestC11(t *testing.T) {
 	w.Bound("depth", depth)
 	alpha := c11Alphabet(w.Thorough())
 	w.Bound("alphabet", len(alpha))
+	lidx := 1000
+	if lt := linTiers["C11"]; lt != nil {
+		lt(t, w, &lidx)
+	}
 	w.SetRule("BFS over announce histories (sources: IPv4 4-byte form, the same IPv4 in 16-byte form, same IP other port, IPv6, another IPv4; 2 infohashes; ports 1/80/65535 with and without implied_port; wrong-token announces) with the bundled in-memory peer store; after every event all 16 get_peers probes (2 infohashes x want in {absent,n4,n6,both} x IPv4/IPv6 requester) are compared with a reference map (infohash, raw IP) -> endpoint: values subset of announced endpoints, every wanted-family endpoint present, 6/18-byte widths per BEP 32, token present; plus the 2-schedule case of two announces from one IP whose asynchronous store updates are released in both orders, and the case of a slow application OnAnnouncePeer hook (probed while parked and after release)")
 	idx := 0
 	for _, first := range alpha {
